@@ -195,10 +195,22 @@ def run(ctx):
         stores = [c for c in b.calls() if is_flag_store(c)]
         # (raising the flag may be a one-line private method of a flag newtype: it must store `true` on every path)
         raised_by_helper = set()
+
+        def raises(hb, depth=2):
+            """hb stores `true` into an atomic flag on every path: itself, or through another one-purpose private helper (`trigger.fire()`
+            -> `flag.raise()`)"""
+            if hb.crate != BG or hb.kind == "Closure":
+                return False
+            hs = [x for x in hb.calls() if is_flag_store(x)]
+            if hs:
+                return all(len(x.args) >= 2 and (op_const(x.args[1]) or {}).get("bool") is True for x in hs) and hb.must_pass([x.bb for x in hs])
+            if depth > 0:
+                inner = [x.bb for x in hb.calls() if any(raises(h2, depth - 1) for h2 in local_callee_bodies(F, x))]
+                return bool(inner) and hb.must_pass(inner)
+            return False
         for c in b.calls():
             for hb in local_callee_bodies(F, c):
-                hs = [x for x in hb.calls() if is_flag_store(x)] if hb.crate == BG and hb.kind != "Closure" else []
-                if hs and all(len(x.args) >= 2 and (op_const(x.args[1]) or {}).get("bool") is True for x in hs) and hb.must_pass([x.bb for x in hs]):
+                if raises(hb):
                     stores.append(c)
                     raised_by_helper.add(c.bb)
         joins = [c for c in b.calls() if c.is_in("std::thread", "JoinHandle::join")]
